@@ -341,7 +341,7 @@ impl Prop for C10 {
         "C10"
     }
     fn units(&self, tier: Tier) -> Vec<Unit> {
-        vec![Unit::new("split", if tier == Tier::Quick { 30_000 } else { 600_000 })]
+        vec![Unit::new("split", if tier == Tier::Quick { 40_000 } else { 800_000 })]
     }
     fn run_unit(&self, unit: &Unit, cases: u32, seed: u64, stats: &mut Stats) -> Option<Failure> {
         run_proptest(&unit.name, case_strategy(), cases, seed, 2000, stats, |c| guarded("C10", || run(c)))
